@@ -221,6 +221,11 @@ class LinEval:
                 hi += 1
         elif it[0] == 'iter':
             lo, hi = 0, len(self.ev(it[1]))
+        elif it[0] == 'rev' and it[1][0] in ('iter', 'copied'):
+            inner = it[1]
+            while inner[0] == 'copied':
+                inner = inner[1]
+            lo, hi = 0, len(self.ev(inner[1]))
         elif it[0] == 'iter_mut':
             p = it[1]
             base = self.s.get(p[1]) if p[0] == 'field' else None
